@@ -63,6 +63,12 @@ def tasks(tier, pid):
         t.append(('float_bounded', 60 if tier == 'quick' else 2000))
     if pid == 'C10':
         t.append(('syntactic_cached',))
+    if pid in ('C04', 'C07', 'C17'):
+        from contracts import bake as BK
+        t += [('bake',) + x for x in BK.tasks(tier, pid) if x[0] == 'step']
+    if pid == 'C17':
+        from contracts import trackers as TR
+        t += [('tracker',) + x for x in TR.tasks(tier, pid) if x[0] == 'used' and 'remove' in x[1]]
     if pid == 'C04':
         from contracts import c16_recipe as C16
         for m, variants in C16.METHODS.items():
@@ -82,6 +88,12 @@ def run(pid, kind, *args):
         return PO.run_transfer(pid, *args)
     if kind == 'plate_unary':
         return PO.run_unary(pid, *args)
+    if kind == 'bake':
+        from contracts import bake as BK
+        return BK.run(pid, *args)
+    if kind == 'tracker':
+        from contracts import trackers as TR
+        return TR.run(pid, *args)
     if kind == 'recipe_method':
         from contracts import c16_recipe as C16
         out = []
